@@ -93,6 +93,129 @@ def random_cut(h, rng):
     return parts
 
 
+WT_FRAME = "404100"             # frame type 0x41 (two-byte varint), session id 0  (R-03b)
+
+
+def wt_cases(rng, big):
+    """frame type 0x41 (WEBTRANSPORT_STREAM) on a stream read through the request API: as first frame,
+    in body position, after the trailers; WebTransport enabled in the configuration or not; both
+    roles; every ending; whole / per frame / per byte (cuts the 0x41 header) / random; and the header
+    cut short (type without session id)"""
+    out = []
+    prefixes = [[], ["U0"], ["H"], ["H", "Dn"], ["H", "D0", "Un"], ["H", "H"], ["H", "Dn", "H"], ["H", "Dn", "H", "U0"]]
+    suffixes = [[], ["Dn"], ["H"], ["U0"]]
+    k = 0
+    for role in ("server", "client"):
+        for pre in prefixes:
+            fr_pre = frames_of(pre, role)
+            for wt in (WT_FRAME, "404104", "4041", "40417fff"):   # complete (ids 0, 4), type only, id cut short
+                for suf in (suffixes if wt in (WT_FRAME, "404104") else [[]]):
+                    seen = "H" in pre
+                    fr_suf = [frame_hex(l, len(pre) + 1 + i, role, seen) for i, l in enumerate(suf)]
+                    fr = fr_pre + [wt] + fr_suf
+                    for cfg in ("g0", "g0,wt=1", "g0,wt=0", "g1,wt=1"):
+                        for ending in ("f0", "r0:%d" % (300 + k % 7), ""):
+                            k += 1
+                            for m in (["whole", "frame", "byte", "random"] if big or cfg != "g1,wt=1" else ["random"]):
+                                out.append(line(role, fr, ending, m, rng, cfg=cfg))
+                            out.append(line(role, fr, ending or "f0", "random", rng, cfg=cfg, late_end=True))
+    return out
+
+
+def split_cases(rng, big):
+    """`RequestStream::split` in the middle of reading: part of the body is read on the whole stream
+    (`q0.rd!`, one piece per call), the stream is split (`q0.sp`, the task keeps the receive half),
+    the rest is read on the receive half — at EVERY position of a DATA frame whose payload arrives in
+    several chunks (after 0 … all of its pieces), between two DATA frames, and between the end of the
+    body and the trailers (`q0.rda! q0.sp q0.rt`).  The single `rd!` calls never reach the end of the
+    body (there are at least as many pieces as calls), so the outcome must be the documented one."""
+    out = []
+    payloads = ["a1a2a3", "b1b2b3b4b5", "0000", "000000000000", "0100", "21002100", "0001ff", "01030000d9"]
+    for role in ("server", "client"):
+        head = hdr_frame(BLK_REQUEST if role == "server" else BLK_RESPONSE)
+        hname = "res" if role == "server" else "rr"
+        for pay in payloads:
+            n = len(pay) // 2
+            data_hdr = "00%02x" % n
+            cuts_list = [[1] * n]                       # one byte per chunk
+            if n >= 4:
+                cuts_list.append([2] * (n // 2) + ([n % 2] if n % 2 else []))
+                cuts_list.append([1, n - 2, 1])
+            for cut in cuts_list:
+                pieces, o = [], 0
+                for c in cut:
+                    pieces.append(pay[2 * o:2 * (o + c)])
+                    o += c
+                for before in ("", "2100", "0000"):
+                    for after, trailers in (("", False), ("0002c1c2", False), ("", True), ("00000001c3404001ee", True)):
+                        tail = after + (hdr_frame(BLK_TRAILER) if trailers else "")
+                        for ending in ("f0", "", "r0:77"):
+                            for k in range(0, len(pieces) + 1):      # pieces read before the split
+                                for style in ("lockstep", "upfront", "posted"):
+                                    if not big and rng.random() < 0.5:
+                                        continue
+                                    ops = [SETUP[role] % "g0", "#pieces"]
+                                    first = head + before + data_hdr + pieces[0]
+                                    rest = pieces[1:]
+                                    if style == "upfront":
+                                        ops.append("s0:" + first)
+                                        ops += ["s0:" + p for p in rest]
+                                        if tail:
+                                            ops.append("s0:" + tail)
+                                        ops.append("q0.%s!" % hname)
+                                        ops += ["q0.rd!"] * k
+                                        ops.append("q0.sp")
+                                    elif style == "lockstep":
+                                        ops += ["s0:" + first, "q0.%s!" % hname]
+                                        if k >= 1:
+                                            ops.append("q0.rd!")
+                                        for j, p in enumerate(rest):
+                                            if j + 2 <= k:
+                                                ops += ["s0:" + p, "q0.rd!"]
+                                        ops.append("q0.sp")
+                                        ops += ["s0:" + p for j, p in enumerate(rest) if j + 2 > k]
+                                        if tail:
+                                            ops.append("s0:" + tail)
+                                    else:   # the calls (and the split) are posted before the bytes arrive
+                                        ops.append("q0.%s!" % hname if role == "client" else "s0:" + first[:4])
+                                        if role == "server":
+                                            ops.append("q0.%s!" % hname)
+                                            ops.append("s0:" + first[4:])
+                                        else:
+                                            ops.append("s0:" + first)
+                                        if k == 0:
+                                            ops.append("q0.sp")
+                                        for j, p in enumerate(rest):
+                                            if j + 1 == k:
+                                                ops += ["q0.rd!"] * k + ["q0.sp"]
+                                            ops.append("s0:" + p)
+                                        if k == len(pieces) and k >= 1:
+                                            ops += ["q0.rd!"] * k + ["q0.sp"]
+                                        if tail:
+                                            ops.append("s0:" + tail)
+                                    late = rng.random() < 0.3
+                                    if ending and not late:
+                                        ops.append(ending)
+                                    ops += ["q0.rda!", "q0.rt"]
+                                    if ending and late:
+                                        ops.append(ending)
+                                    out.append(" ".join(ops))
+        # between the end of the body and the trailers (and other places of the documented pattern)
+        bodies = ["", "0000", "0003aabbcc", "0001aa21000002bbcc", "404003beef010002a1a2"]
+        for body in bodies:
+            for trailers in (True, False):
+                for post in ("", "2100", "0001ff"):
+                    msg = [head, body, hdr_frame(BLK_TRAILER) if trailers else "", post]
+                    for ending in ("f0", "", "r0:78"):
+                        for m in ("whole", "frame", "byte", "random"):
+                            for pat in (["q0.%s!" % hname, "q0.rda!", "q0.sp", "q0.rt"],
+                                        ["q0.%s!" % hname, "q0.sp", "q0.rda!", "q0.rt"],
+                                        ["q0.%s!" % hname, "q0.sp", "q0.rda!", "q0.sp", "q0.rt"]):
+                                out.append(line(role, [f for f in msg if f], ending, m, rng, calls=" ".join(pat)))
+                                out.append(line(role, [f for f in msg if f], ending or "f0", m, rng, calls=" ".join(pat), late_end=True))
+    return out
+
+
 def line(role, frames, ending, chunking, rng=None, cfg="g0", calls=None, late_end=False):
     whole = "".join(frames)
     if chunking == "whole":
@@ -141,27 +264,45 @@ class C03(Prop):
                   "unconditionally to the FrameStream model over EVERY transport script (any chunking, Pending anywhere, "
                   "FIN/RESET/open) by a simulation proved from the C02 invariant (C03_lifted_to_chunks_closed); for FIN on a "
                   "frame boundary and for still-open streams the outcome is a function of the wire bytes alone "
-                  "(C03_chunked_outcome_fin/_open)")
+                  "(C03_chunked_outcome_fin/_open); the header hypothesis is POSITIONAL (HdrsOk: first HEADERS block an acceptable head, "
+                  "second an acceptable trailer section — satisfiable by a faithful oracle; non-vacuity with the driver's own oracle, "
+                  "messages with trailers); RE-POLLING: with every call polled again while it answers Pending, for every frame sequence "
+                  "(valid or not), every ending, every cutting and every schedule (pend events anywhere in the transport script) the "
+                  "trace is that of the frame-level model on a frame sequence tied to the bytes (C03_polled_lifted_closed), and for FIN "
+                  "(on a boundary or inside a frame header / non-DATA payload) and still-open streams the outcome is the recogniser's "
+                  "verdict on the bytes alone (C03_polled_outcome_fin/_open); split() anywhere leaves the digest unchanged "
+                  "(C03_split_preserves_outcome)")
     level_note = ("trusted: Lean kernel + 3 standard axioms; hand model tied to the code by running real h3::server / h3::client "
                   "objects over SimQuic on the same scenario lines as the composed Lean model (request layer over the FrameStream "
                   "model); QPACK/header validation is an oracle on the five header blocks the generator uses (C11/C12); the "
                   "connection driver is modelled as 'an active accept loop / wait_idle closes with the code in the cell' (C05); "
-                  "C03_lifted_to_chunks_closed has no simulation hypothesis left (side conditions: non-empty chunks, no 0x41 frame header in the bytes, header blocks acceptable to the header oracle)")
+                  "C03_lifted_to_chunks_closed / C03_polled_lifted_closed have no simulation hypothesis left (side conditions: non-empty chunks, "
+                  "no 0x41 frame header in the bytes — that case is specified (R-03b) and compared on the real code, not covered by the chunk-level "
+                  "theorems —, header blocks acceptable to the header oracle in their positions); a schedule is a transport script with pend events "
+                  "(a pend = a poll that finds nothing new, C03_pend_is_empty_poll); for FIN inside a DATA payload and for RESET the number of payload "
+                  "bytes handed out before the error depends on the schedule, so there the claim is the prefix version (TiedS)")
     rule = ("cases: `req` scenario lines; every sequence of length <= 5 (thorough: plus every length-6 sequence whose first five "
             "letters do not already end the reading) over the 11-letter alphabet {HEADERS, DATA(0), DATA(n), unknown(0), "
             "unknown(n), CANCEL_PUSH, SETTINGS, GOAWAY, MAX_PUSH_ID, PUSH_PROMISE, H2-reserved} x endings {FIN, RESET, open} x "
             "{server, client}, documented call pattern (head, recv_data until end, recv_trailers; stop at an error); chunking "
             "rotates whole/per frame/per byte/random in quick, all four in thorough for length <= 4; plus truncations at every "
             "offset, malformed/bad-SETTINGS/bad-header frames, endings and chunks arriving between the calls, raw recv_data "
-            "call sequences incl. calls after the end; non-trivial = at least one API call of the stream completed")
+            "call sequences incl. calls after the end (with split() inserted anywhere in a third of them); frame type 0x41 (WEBTRANSPORT_STREAM) "
+            "as first frame / in body position / after the trailers, complete or cut short, wt=0 and wt=1, both roles, every ending, four "
+            "chunkings; split(): part of the body read on the whole stream (one piece per recv_data), split at EVERY position of a DATA "
+            "frame whose payload arrives in several chunks (payloads that look like frames / are all zero included), between two DATA "
+            "frames, between the end of the body and the trailers, calls posted before or after the bytes; non-trivial = at least one API "
+            "call of the stream completed")
     trusted = ["SimQuic + scripted executor (harness/src/sim.rs, exec.rs, scen.rs)",
                "http / qpack decoding of the five fixed header blocks (oracle in lean/H3/Drv/C03.lean)",
                "translator decision tables H3.Gen.ReqArms (arms of RequestStream::poll_recv_data / poll_recv_trailers per variant of enum Frame, incl. the catch-all arms), H3.Gen.FirstFrame (server accept_with_frame, client recv_response) and H3.Gen.FrameErrCodes (got_frame_error, handle_frame_stream_error_on_request_stream), re-read from h3/src/connection.rs, h3/src/server/request.rs, h3/src/client/stream.rs, h3/src/error/*.rs on this run (any other shape is refused); tied to the model by H3.Lemmas.GenAgreeReq (pollRecvData_frame, trailersFirst_frame, trailersCheck_frame, pollHead_frame and their _fin/_err/_pending companions: on every answer of the frame layer the model step does what the generated arm says), rebuilt on this run"]
     assumptions = ["documented call pattern: resolve_request/recv_response, recv_data until None, recv_trailers; no call after an error",
-                   "every HEADERS block decodes to a well-formed message (C11/C12 decide that)",
+                   "the FIRST HEADERS block of a stream decodes to a well-formed message head, the SECOND to a well-formed trailer section (C11/C12 decide that; nothing is assumed about a block in the other position)",
                    "for RESET the frames delivered before the reset is noticed are a prefix of the frames sent (C02, App. B.1)",
                    "C03_lifted_to_chunks: the frame layer simulates the token source (hypothesis `Sim`, the C02 facts)",
-                   "client-side FIN before HEADERS and PUSH_PROMISE to a client are left open by the property (R-03)"]
+                   "client-side FIN before HEADERS and PUSH_PROMISE to a client are not fixed by the property text (R-03): the oracle lists the alternatives the RFC allows (a failing call: H3_FRAME_UNEXPECTED or a stream-level error; H3_FRAME_UNEXPECTED or H3_ID_ERROR), never 'anything'",
+                   "frame type 0x41 on a stream read through the request API is a defined frame out of place (R-03b): H3_FRAME_UNEXPECTED or H3_FRAME_ERROR, never skipped",
+                   "re-polling theorems: a schedule of deliveries and polls is a transport script with pend events anywhere (the FrameStream model's own notion of a schedule)"]
 
     _codes_cache = None
 
@@ -204,6 +345,10 @@ class C03(Prop):
                 continue
             cmd, _, res = t[len(pre):].partition("=")
             if res == "no-task":
+                continue
+            # a `split` that was carried out has no result of its own: what is compared is what the
+            # receive calls answer, whole or split (the data pieces around it are merged as usual)
+            if cmd == "sp" and res == "ok":
                 continue
             if cmd == "rd" and res.startswith("data:"):
                 h = res[5:]
@@ -340,8 +485,16 @@ class C03(Prop):
                     calls = ["q0.%s!" % hname] + ["q0." + rng.choice(["rd", "rd", "rt", "rda"]) + "!" for _ in range(rng.randrange(1, 7))]
                 else:
                     calls = ["q0." + rng.choice(["rd", "rt", hname, "rda"]) + "!" for _ in range(rng.randrange(1, 6))]
+                # `split` anywhere in a raw call sequence (also before the head, also twice)
+                if rng.random() < 0.35:
+                    for _ in range(rng.choice([1, 1, 2])):
+                        calls.insert(rng.randrange(0, len(calls) + 1), "q0.sp")
                 add(line(role, fr, rng.choice(["f0", "f0", "", "r0:11"]), rng.choice(modes), rng, calls=" ".join(calls),
                          late_end=rng.random() < 0.2))
+        for l in wt_cases(rng, big):
+            add(l)
+        for l in split_cases(rng, big):
+            add(l)
         return L
 
     def klass(self, line, impl):
